@@ -170,7 +170,8 @@ def run_kani(scratch, harnesses, features="default", zflags=(), timeout_s=600, j
             raise Undecided("kani-compile-error (a function a harness depends on changed shape?)\n" + tail)
         raise Undecided("kani-no-output\n" + tail)
     d = json.load(open(out_json))
-    stats = {c["harness_id"]: c.get("cbmc_stats", {}) for c in d.get("cbmc", [])}
+    stats = {c["harness_id"]: (c.get("cbmc_stats") or {}) for c in d.get("cbmc", [])}
+    errs = {e["harness_id"]: e for e in d.get("error_details", [])}
     for r in d["verification_results"]["results"]:
         hid = r["harness_id"]
         checks = r.get("checks", [])
@@ -178,6 +179,8 @@ def run_kani(scratch, harnesses, features="default", zflags=(), timeout_s=600, j
         covers = [c for c in checks if c.get("category") == "cover" or c["status"] in ("Satisfied", "Unsatisfiable", "SATISFIED", "UNSATISFIABLE")]
         uncovered = [c for c in covers if c["status"].lower() in ("unsatisfiable", "unreachable")]
         undet = [c for c in checks if c["status"].lower() in ("undetermined",)]
+        if errs.get(hid, {}).get("exit_status") == "timeout":
+            r["status"] = "Timeout"
         results[hid] = {
             "status": r["status"],
             "duration_s": r.get("duration_ms", 0) / 1000.0,
